@@ -484,10 +484,26 @@ func runC07(c *rt.Ctx) {
 						c07CheckDate(w, "fromtime-local-zone", "fromtime", rt.Args("unix_sec", o*86400+1800, "offset_sec", off, "zone", time.Local.String()), date.FromTime(t), wy, wm, wd)
 					}
 				}
+				if w.Shard == 0 { // Today is the conversion of the current instant as shown in the local zone
+					for k := 0; k < 50; k++ {
+						t1 := time.Now()
+						got := date.Today()
+						t2 := time.Now()
+						y1, m1, d1 := t1.Date()
+						y2, m2, d2 := t2.Date()
+						gy, gm, gd := got.Date()
+						w.Eval(1)
+						if !(gy == y1 && gm == m1 && gd == d1) && !(gy == y2 && gm == m2 && gd == d2) {
+							w.Fail("today", "fromtime", rt.Args("zone", time.Local.String(), "unix_sec", t1.Unix(), "offset_sec", 0), got.String(), t1.Format("2006-01-02"), "Today must be the date the current instant shows in the local zone")
+						}
+					}
+					w.ClassN("today-in-local-zone", 1)
+				}
 				w.ClassN("local-zone-sweep", 1)
 			})
 		})
 	}
+	c.Require("today-in-local-zone", int64(len(hostileZones())))
 	c.Require("local-zone-sweep", int64(len(hostileZones())))
 	c.Require("fromtime-non-utc-zone-near-midnight", 100000)
 	c.Require("fromtime-offset-with-seconds", 100000)
